@@ -13,48 +13,72 @@
 (*               with                                                       *)
 (* The same tables are computed in C++ with the library's own type traits  *)
 (* by harness/het_interp.cpp and static_assert-ed equal to these constants.*)
+(* CounterRemover (any shape, trigger count c) and ConditionalRemover      *)
+(* (callbacks without arguments only: its wrapper is callable with         *)
+(* anything, so it always binds to the first prototype; the condition      *)
+(* holds at its second evaluation) listeners detach themselves on their    *)
+(* max(c,1)-th / 2nd trigger (C16, heterogeneous targets).                 *)
 (* State: callbacks per prototype (a sequence each), queued events         *)
 (* [uid, proto].  TLC checks exactly-once / FIFO / untouched on all        *)
 (* bounded histories and prints the transition cover.                      *)
 (***************************************************************************)
 EXTENDS Naturals, Sequences, FiniteSets, TLC, Json
 
-CONSTANTS MaxCbs, MaxEnq, MaxInv, Ops, CbShapes, ArgShapes, PredShapes
+CONSTANTS MaxCbs, MaxEnq, MaxInv, Ops, CbShapes, ArgShapes, PredShapes, Counts
 Protos == 1..5
 Binds == <<1, 2, 3, 4, 5, 2, 1>>                 \* shapes 1..5: exact; 6: callable with (int) and (int,const TS&); 7: callable with anything
 Accepts == <<1, 2, 2, 3, 4, 5, 2>>               \* (), (int), (long), (TS), (Big), (int,TS), (char)
 Callable == <<{1}, {2}, {3}, {4}, {5}, {2, 5}>>   \* predicates: bool(), bool(int), bool(const TS&), bool(const Big&), bool(int,const TS&), generic {(int), (int,const TS&)}
 
-VARIABLES lst, pending, ncb, nuid, ninv, consumed, hist
-vars == <<lst, pending, ncb, nuid, ninv, consumed, hist>>
-View == <<lst, pending, ncb, nuid, ninv, consumed>>
+VARIABLES lst, kind, pending, ncb, nuid, ninv, consumed, hist
+vars == <<lst, kind, pending, ncb, nuid, ninv, consumed, hist>>
+View == <<lst, kind, pending, ncb, nuid, ninv, consumed>>
 
-Init == lst = [p \in Protos |-> <<>>] /\ pending = <<>> /\ ncb = 0 /\ nuid = 0 /\ ninv = 0 /\ consumed = {} /\ hist = <<>>
+Init == lst = [p \in Protos |-> <<>>] /\ kind = <<>> /\ pending = <<>> /\ ncb = 0 /\ nuid = 0 /\ ninv = 0 /\ consumed = {} /\ hist = <<>>
 H(op, a, b) == hist' = Append(hist, <<op, a, b>>)
 InSeq(s, x) == \E i \in 1..Len(s) : s[i] = x
 Pos(s, x) == CHOOSE i \in 1..Len(s) : s[i] = x
 Without(s, x) == SelectSeq(s, LAMBDA y : y # x)
 ProtoOf(h) == IF \E p \in Protos : InSeq(lst[p], h) THEN CHOOSE p \in Protos : InSeq(lst[p], h) ELSE 0
 
-OpAppend(k) == /\ "al" \in Ops /\ ncb < MaxCbs /\ lst' = [lst EXCEPT ![Binds[k]] = Append(@, ncb + 1)] /\ ncb' = ncb + 1
-               /\ UNCHANGED <<pending, nuid, ninv, consumed>> /\ H("al", k, 0)
-OpPrepend(k) == /\ "pl" \in Ops /\ ncb < MaxCbs /\ lst' = [lst EXCEPT ![Binds[k]] = <<ncb + 1>> \o @] /\ ncb' = ncb + 1
-                /\ UNCHANGED <<pending, nuid, ninv, consumed>> /\ H("pl", k, 0)
+Plain == [k |-> "plain", left |-> 0]
+Ctr(c) == [k |-> "ctr", left |-> IF c < 1 THEN 1 ELSE c]
+Cond == [k |-> "cond", left |-> 2]
+Before(s, h, n) == IF InSeq(s, h) THEN SubSeq(s, 1, Pos(s, h) - 1) \o <<n>> \o SubSeq(s, Pos(s, h), Len(s)) ELSE Append(s, n)
+\* one trigger of prototype p: every self-removing listener of that list counts down and detaches itself when it reaches zero
+Trig(p, ls, kd) == LET S == {n \in 1..Len(kd) : InSeq(ls[p], n) /\ kd[n].k # "plain"} IN
+                   [ls |-> [ls EXCEPT ![p] = SelectSeq(@, LAMBDA x : x \notin S \/ kd[x].left > 1)],
+                    kd |-> [n \in 1..Len(kd) |-> IF n \in S THEN [kd[n] EXCEPT !.left = @ - 1] ELSE kd[n]]]
+RECURSIVE TrigAll(_,_,_)
+TrigAll(ps, ls, kd) == IF ps = <<>> THEN [ls |-> ls, kd |-> kd] ELSE LET t == Trig(Head(ps), ls, kd) IN TrigAll(Tail(ps), t.ls, t.kd)
+AddNode(op, p, newseq, kd) == /\ op \in Ops /\ ncb < MaxCbs /\ lst' = [lst EXCEPT ![p] = newseq] /\ kind' = Append(kind, kd) /\ ncb' = ncb + 1
+                              /\ UNCHANGED <<pending, nuid, ninv, consumed>>
+OpAppend(k) == AddNode("al", Binds[k], Append(lst[Binds[k]], ncb + 1), Plain) /\ H("al", k, 0)
+OpPrepend(k) == AddNode("pl", Binds[k], <<ncb + 1>> \o lst[Binds[k]], Plain) /\ H("pl", k, 0)
+\* CounterRemover: append / prepend / insert-before forms; script items ac [k, c], pc [k, c], ic [k + 10h, c]
+OpAppendCtr(k, c) == AddNode("ac", Binds[k], Append(lst[Binds[k]], ncb + 1), Ctr(c)) /\ H("ac", k, c)
+OpPrependCtr(k, c) == AddNode("pc", Binds[k], <<ncb + 1>> \o lst[Binds[k]], Ctr(c)) /\ H("pc", k, c)
+OpInsertCtr(k, h, c) == h \in 0..ncb /\ AddNode("ic", Binds[k], Before(lst[Binds[k]], h, ncb + 1), Ctr(c)) /\ H("ic", k + 10 * h, c)
+\* ConditionalRemover (prototype 1 only): ak [0, 0], qk [0, 0], ik [0, h]
+OpAppendCond == AddNode("ak", 1, Append(lst[1], ncb + 1), Cond) /\ H("ak", 0, 0)
+OpPrependCond == AddNode("qk", 1, <<ncb + 1>> \o lst[1], Cond) /\ H("qk", 0, 0)
+OpInsertCond(h) == h \in 0..ncb /\ AddNode("ik", 1, Before(lst[1], h, ncb + 1), Cond) /\ H("ik", 0, h)
 \* insert before handle h: immediately before it when h is a live callback of the SAME prototype, else at the back of its own prototype's list
-OpInsert(k, h) == /\ "il" \in Ops /\ ncb < MaxCbs /\ h \in 1..ncb
-                  /\ LET p == Binds[k]  s == lst[p] IN
-                     lst' = [lst EXCEPT ![p] = IF InSeq(s, h) THEN SubSeq(s, 1, Pos(s, h) - 1) \o <<ncb + 1>> \o SubSeq(s, Pos(s, h), Len(s)) ELSE Append(s, ncb + 1)]
-                  /\ ncb' = ncb + 1 /\ UNCHANGED <<pending, nuid, ninv, consumed>> /\ H("il", k, h)
+OpInsert(k, h) == /\ h \in 1..ncb /\ AddNode("il", Binds[k], Before(lst[Binds[k]], h, ncb + 1), Plain) /\ H("il", k, h)
 OpRemove(h) == /\ "rl" \in Ops /\ h \in 1..ncb /\ lst' = [p \in Protos |-> Without(lst[p], h)]
-               /\ UNCHANGED <<pending, ncb, nuid, ninv, consumed>> /\ H("rl", h, 0)
-OpInvoke(a) == /\ "iv" \in Ops /\ ninv < MaxInv /\ ninv' = ninv + 1 /\ UNCHANGED <<lst, pending, ncb, nuid, consumed>> /\ H("iv", a, 0)
+               /\ UNCHANGED <<kind, pending, ncb, nuid, ninv, consumed>> /\ H("rl", h, 0)
+ProtosOf(evs) == [i \in 1..Len(evs) |-> evs[i].p]
+Fire(ps) == LET t == TrigAll(ps, lst, kind) IN lst' = t.ls /\ kind' = t.kd
+OpInvoke(a) == /\ "iv" \in Ops /\ ninv < MaxInv /\ ninv' = ninv + 1 /\ Fire(<<Accepts[a]>>)
+               /\ UNCHANGED <<pending, ncb, nuid, consumed>> /\ H("iv", a, 0)
 OpEnqueue(a) == /\ "nq" \in Ops /\ nuid < MaxEnq /\ pending' = Append(pending, [uid |-> nuid + 1, p |-> Accepts[a]]) /\ nuid' = nuid + 1
-                /\ UNCHANGED <<lst, ncb, ninv, consumed>> /\ H("nq", a, 0)
-OpProcess == /\ "pa" \in Ops /\ consumed' = consumed \cup {pending[i].uid : i \in 1..Len(pending)} /\ pending' = <<>>
-             /\ UNCHANGED <<lst, ncb, nuid, ninv>> /\ H("pa", 0, 0)
+                /\ UNCHANGED <<lst, kind, ncb, ninv, consumed>> /\ H("nq", a, 0)
+OpProcess == /\ "pa" \in Ops /\ consumed' = consumed \cup {pending[i].uid : i \in 1..Len(pending)} /\ pending' = <<>> /\ Fire(ProtosOf(pending))
+             /\ UNCHANGED <<ncb, nuid, ninv>> /\ H("pa", 0, 0)
 OpProcessOne == /\ "po" \in Ops
-                /\ IF pending = <<>> THEN UNCHANGED <<pending, consumed>> ELSE pending' = Tail(pending) /\ consumed' = consumed \cup {Head(pending).uid}
-                /\ UNCHANGED <<lst, ncb, nuid, ninv>> /\ H("po", 0, 0)
+                /\ IF pending = <<>> THEN UNCHANGED <<pending, consumed, lst, kind>>
+                   ELSE pending' = Tail(pending) /\ consumed' = consumed \cup {Head(pending).uid} /\ Fire(<<Head(pending).p>>)
+                /\ UNCHANGED <<ncb, nuid, ninv>> /\ H("po", 0, 0)
 \* processIf with a predicate of shape s whose verdict is "uid is odd": the code runs one pass per callable prototype in list order and
 \* returns after the first pass that dispatched something
 RECURSIVE Passes(_,_)
@@ -68,9 +92,12 @@ SortedSeq(S) == LET RECURSIVE F(_)
 OpProcessIf(s) == /\ "pi" \in Ops
                   /\ pending' = Passes(SortedSeq(Callable[s]), pending)
                   /\ consumed' = consumed \cup ({pending[i].uid : i \in 1..Len(pending)} \ {pending'[i].uid : i \in 1..Len(pending')})
-                  /\ UNCHANGED <<lst, ncb, nuid, ninv>> /\ H("pi", s, 0)
+                  /\ Fire(ProtosOf(SelectSeq(pending, LAMBDA e : \A i \in 1..Len(pending') : pending'[i].uid # e.uid)))
+                  /\ UNCHANGED <<ncb, nuid, ninv>> /\ H("pi", s, 0)
 
 Next == \/ \E k \in CbShapes : OpAppend(k) \/ OpPrepend(k) \/ \E h \in 1..MaxCbs : OpInsert(k, h)
+        \/ \E k \in CbShapes, c \in Counts : OpAppendCtr(k, c) \/ OpPrependCtr(k, c) \/ \E h \in 0..MaxCbs : OpInsertCtr(k, h, c)
+        \/ OpAppendCond \/ OpPrependCond \/ \E h \in 0..MaxCbs : OpInsertCond(h)
         \/ \E h \in 1..MaxCbs : OpRemove(h)
         \/ \E a \in ArgShapes : OpInvoke(a) \/ OpEnqueue(a)
         \/ OpProcess \/ OpProcessOne \/ \E s \in PredShapes : OpProcessIf(s)
@@ -81,4 +108,6 @@ Ledger == /\ \A u \in 1..nuid : (u \in consumed) # (\E i \in 1..Len(pending) : p
           /\ \A i, j \in 1..Len(pending) : i < j => pending[i].uid < pending[j].uid
 \* a callback sits in exactly one prototype's list
 OnePlace == \A h \in 1..ncb : Cardinality({p \in Protos : InSeq(lst[p], h)}) <= 1
+\* C16: a self-removing listener that is still attached has triggers left
+CtrLeft == \A n \in 1..ncb : (kind[n].k # "plain" /\ \E p \in Protos : InSeq(lst[p], n)) => kind[n].left >= 1
 =============================================================================
